@@ -84,8 +84,17 @@ func (a Any) SemanticTokens(ctx context.Context) []lang.SemanticToken {
 			return a.semanticTokensForNonComplexExpr(ctx)
 		}
 
+		// any expression of the attribute's type (as for origins
+		// and for list, set and map elements)
+		attributes := ctyObjectToObjectAttributes(typ)
+		for name, attrType := range typ.AttributeTypes() {
+			attributes[name].Constraint = schema.AnyExpression{
+				OfType: attrType,
+			}
+		}
+
 		cons := schema.Object{
-			Attributes:            ctyObjectToObjectAttributes(typ),
+			Attributes:            attributes,
 			AllowInterpolatedKeys: true,
 		}
 		return newExpression(a.pathCtx, expr, cons).SemanticTokens(ctx)
